@@ -4,21 +4,28 @@
 // functions (find_detectors, actual_scatter_estimate, simulate_for_one_scatter_point, the scatter-point vector) and (b) at the
 // public boundary (set_*, set_up, process_data, output projection data).  STIR's SCAT_CACHE_R/W call-outs are only counted.
 //
-// Case kinds (ctx.idx % 6):
-//   0,3  "pairs"    one generated configuration: all detector pairs of the template in both orders (symmetry, per scatter point
+// Case kinds (ctx.idx % 3):
+//   0    "pairs"    one generated configuration: all detector pairs of the template in both orders (symmetry, per scatter point
 //                   and summed), per-pair function == process_data output, est >= 0 and finite, cache on == cache off (bit-exact:
 //                   a cached value is the float that the same function returns when it is recomputed), linearity in the activity
 //                   image (computed float32 band), est(0) == 0 exactly.
-//   1,5  "history"  random setter / set_up / process_data history on ONE object; at every check-point the output must be
-//                   bit-identical to a FRESH object configured with the final values in a canonical setter order, and to a second
-//                   fresh object configured in a random setter order.  Setter orders that run into an already demonstrated
-//                   defect (see HAZ_*) are repaired before set_up (the setter that re-derives the stale state is called again),
-//                   so that the remaining part of the history clause stays monitored while those defects exist.
-//   2    "history, hazard attenuation-threshold"   as above but set_attenuation_threshold may follow the scatter-point image
-//   4    "history, hazard exam-info"               as above but set_exam_info may follow a process_data without a new template
-//   (5 additionally allows set_randomly_place_scatter_points(false) after the scatter-point image in the fresh random order.)
-// A mismatch in a hazard case is attributed by emulation (fresh object given the stale value reproduces the output bit-exactly)
-// and then reported under the defect-specific key; everything else is reported under the generic keys.
+//   1,2  "history"  random setter / set_up / process_data history on ONE object (new activity image, attenuation image,
+//                   scatter-point image, template, energy window, cache switch, setters called again with the same value, re-runs
+//                   without a change); at every check-point the output must be bit-identical to a FRESH object configured with the
+//                   final values in a canonical setter order, and to a second fresh object configured in a random setter order.
+//
+// What is NOT demanded (triage of the first version of this harness, which had "hazard" case kinds for it): the property
+// statement lists the changes whose history must not matter - activity image, attenuation image, scatter-point image, template,
+// energy settings (+ the cache switch).  set_attenuation_threshold() and set_randomly_place_scatter_points() are not in that list,
+// and the library samples the scatter points inside set_density_image_for_scatter_points_sptr() with the threshold / flag in force
+// at that moment (a later change of either is silently ignored until the scatter-point image is given again).  So both are set
+// BEFORE the scatter-point image here, in the history object and in every fresh object, exactly as set_density_image_sptr() has to
+// precede it (that setter discards the scatter-point image, as its body says).  A history step that changes the threshold gives
+// the scatter-point image again, which IS a listed change.
+//
+// A mismatch after the energy window was changed by set_exam_info() following a process_data() with the same template is
+// attributed by emulation (the minimal 2-step history on a fresh object reproduces the output bit-exactly) and reported under
+// the defect-specific key KEY_EXAM; everything else is reported under the generic keys.
 #include "common/verif.h"
 #include "common/gen.h"
 #include "stir/scatter/SingleScatterSimulation.h"
@@ -325,18 +332,12 @@ struct Obj
 {
   Sim sim;
   // bookkeeping of values that the object derives state from at the time of a call (used for repair and attribution only)
-  float obj_thr = 0.01f; // library default
-  bool obj_rnd = true;   // library default
   float obj_low = -1, obj_high = -1;
-  bool sp_sampled = false;
-  float thr_at_sampling = 0;
-  bool rnd_at_sampling = false;
-  bool eff_valid = false; // detector_efficiency_no_scatter computed since the last template change
+  bool eff_valid = false; // a process_data happened since the last template change (the 511 keV efficiency was computed then)
   float eff_low = 0, eff_high = 0;
   std::vector<std::string> log;
 
-  bool thr_stale() const { return sp_sampled && thr_at_sampling != obj_thr; }
-  bool rnd_stale() const { return sp_sampled && rnd_at_sampling; }
+  // the energy window was changed after a process_data and the template was not set since
   bool eff_stale() const { return eff_valid && (eff_low != obj_low || eff_high != obj_high); }
 
   void apply(Ctx& ctx, const State& st, Setter s, int variant = 0)
@@ -345,12 +346,10 @@ struct Obj
       {
       case S_RND:
         sim.set_randomly_place_scatter_points(false);
-        obj_rnd = false;
         log.push_back("set_randomly_place_scatter_points(0)");
         break;
       case S_THR:
         sim.set_attenuation_threshold(st.thr);
-        obj_thr = st.thr;
         log.push_back(vf::fmt("set_attenuation_threshold(%.4g)", st.thr));
         break;
       case S_TMPL:
@@ -391,14 +390,10 @@ struct Obj
       case S_ATT:
         // (documented in the code: this also forgets the scatter-point image, so S_SP has to follow)
         sim.set_density_image_sptr(st.att.p);
-        sp_sampled = false;
         log.push_back(vf::fmt("set_density_image_sptr(#%d)", st.att.id));
         break;
       case S_SP:
         sim.set_density_image_for_scatter_points_sptr(st.sp.p);
-        sp_sampled = true;
-        thr_at_sampling = obj_thr;
-        rnd_at_sampling = obj_rnd;
         log.push_back(vf::fmt("set_density_image_for_scatter_points_sptr(#%d)", st.sp.id));
         break;
       case S_CACHE:
@@ -484,6 +479,8 @@ run(Ctx& ctx, Obj& o, const State& st, int set_up_calls = 1)
       r.err = std::string("exception: ") + e;
       return r;
     }
+  // (window in force at the FIRST process_data after the template was set; a correct library uses the window of the last set_up,
+  // so this is only used to describe and emulate the stale state, not to predict anything)
   if (!o.eff_valid)
     {
       o.eff_valid = true;
@@ -605,9 +602,9 @@ case_pairs(Ctx& ctx)
       unsigned a = 0, b = 0;
       o1.sim.detectors_of(a, b, bin);
       if (a == b)
-        {
-          ctx.violation("pairs:bin-maps-to-identical-detectors", bin_str(bin));
-          return;
+        { // not a detector PAIR: nothing the property talks about
+          ctx.count("bins_with_identical_detectors_skipped");
+          continue;
         }
       if (!seen.insert(std::make_pair(std::min(a, b), std::max(a, b))).second)
         ctx.count("detector_pair_seen_in_several_bins");
@@ -743,58 +740,11 @@ case_pairs(Ctx& ctx)
 }
 
 // ------------------------------------------------------------------------------------------------ kind "history"
-enum Hazard
-{
-  HAZ_NONE,
-  HAZ_THR,  // set_attenuation_threshold after the scatter-point image was set: the points are not re-sampled
-  HAZ_EXAM, // set_exam_info after a process_data with the same template: detector_efficiency_no_scatter is not recomputed
-  HAZ_RND   // (fresh random order only) set_randomly_place_scatter_points(false) after the scatter-point image
-};
-static const char* const KEY_THR = "history:setter-order-dependence:attenuation_threshold-after-scatter-point-image";
 static const char* const KEY_EXAM = "history:stale-511keV-detection-efficiency:set_exam_info-after-process_data";
-static const char* const KEY_RND = "history:setter-order-dependence:randomly_place_scatter_points-after-scatter-point-image";
-
-// call again the setters that re-derive state which this case is not allowed to leave stale
-static void
-repair(Ctx& ctx, Obj& o, const State& st, Hazard allowed)
-{
-  if (o.thr_stale() && allowed != HAZ_THR)
-    {
-      o.apply(ctx, st, S_SP);
-      ctx.count("repairs:scatter-point-image-set-again-after-threshold");
-    }
-  if (o.eff_stale() && allowed != HAZ_EXAM)
-    {
-      o.apply(ctx, st, S_TMPL);
-      ctx.count("repairs:template-set-again-after-exam-info");
-    }
-}
-
-// scatter points of a non-random sampling sit exactly on voxel centres
-static bool
-points_on_voxel_centres(const Sim& s, const Img& sp, std::string& where)
-{
-  const float zmid = (sp.g.nz - 1) * sp.p->get_voxel_size().z() / 2.F;
-  for (std::size_t i = 0; i < s.num_points(); ++i)
-    {
-      const CartesianCoordinate3D<float> c = s.point_coord(i);
-      const CartesianCoordinate3D<float> vs = sp.p->get_voxel_size();
-      const double kz = (static_cast<double>(c.z()) + zmid) / vs.z(), ky = c.y() / static_cast<double>(vs.y()),
-                   kx = c.x() / static_cast<double>(vs.x());
-      const double off = std::max(std::fabs(kz - std::round(kz)), std::max(std::fabs(ky - std::round(ky)), std::fabs(kx - std::round(kx))));
-      if (off > 1e-4)
-        {
-          where = vf::fmt("scatter point %zu at (z %.7g, y %.7g, x %.7g) mm is %.3g voxel off the centre of its voxel", i,
-                          static_cast<double>(c.z()), static_cast<double>(c.y()), static_cast<double>(c.x()), off);
-          return false;
-        }
-    }
-  return true;
-}
 
 // returns false if a violation was reported
 static bool
-checkpoint(Ctx& ctx, Obj& hist, const State& st, Hazard allowed, bool first, bool& nonzero, bool changed_since_set_up = true)
+checkpoint(Ctx& ctx, Obj& hist, const State& st, bool first, bool& nonzero, bool changed_since_set_up = true)
 {
   ctx.heartbeat("history:checkpoint");
   // reference: fresh object, canonical order
@@ -809,15 +759,11 @@ checkpoint(Ctx& ctx, Obj& hist, const State& st, Hazard allowed, bool first, boo
   nonzero = ref.maxval > 0;
 
   // ---- the object with the history
-  const std::size_t log_before = hist.log.size();
-  repair(ctx, hist, st, allowed);
-  const bool h_thr = hist.thr_stale(), h_eff = hist.eff_stale();
-  const float stale_thr = hist.thr_at_sampling, stale_low = hist.eff_low, stale_high = hist.eff_high;
-  if (h_thr)
-    ctx.count("hazard_states:threshold-newer-than-scatter-points");
+  const bool h_eff = hist.eff_stale();
+  const float stale_low = hist.eff_low, stale_high = hist.eff_high;
   if (h_eff)
-    ctx.count("hazard_states:exam-info-newer-than-511keV-efficiency");
-  const bool untouched = !changed_since_set_up && !first && hist.log.size() == log_before;
+    ctx.count("states:energy-window-changed-after-process_data-with-same-template");
+  const bool untouched = !changed_since_set_up && !first;
   Out got = run(ctx, hist, st, untouched && ctx.rng.coin(0.5) ? 0 : (ctx.rng.coin(0.15) ? 2 : 1));
   ctx.count("fresh_object_comparisons");
   ctx.count("history_checkpoints");
@@ -826,25 +772,10 @@ checkpoint(Ctx& ctx, Obj& hist, const State& st, Hazard allowed, bool first, boo
   if (!got.ok || first_difference(got.v, ref.v) >= 0)
     {
       const std::string what = !got.ok ? ("object with history: " + got.err + ", fresh object accepts") : diff_str(got.v, ref.v);
-      // attribution by emulation: a fresh object that is given the stale value reproduces the output of the history
-      if (got.ok && h_thr)
-        {
-          State e = st;
-          e.thr = stale_thr;
-          Out em = fresh_canonical(ctx, e);
-          if (em.ok && first_difference(em.v, got.v) < 0)
-            {
-              ctx.violation(KEY_THR, vf::fmt("object with history uses %d scatter points sampled with threshold %.4g although "
-                                             "set_attenuation_threshold(%.4g) was called before set_up (a fresh object has %ld points); "
-                                             "its output is bit-identical to a fresh object with threshold %.4g; vs fresh(final): ",
-                                             hist.sim.get_num_scatter_points(), stale_thr, st.thr, count_at_least(st.sp, st.thr), stale_thr)
-                                        + what + "; " + ctxt);
-              return false;
-            }
-        }
+      // attribution by emulation: the minimal history on a fresh object reproduces the output of the long history
       if (got.ok && h_eff)
         {
-          // minimal history: fresh object, stale window, process once, then only set_exam_info(final) + set_up
+          // fresh object, stale window, process once, then only set_exam_info(final) + set_up
           State e = st;
           e.low = stale_low;
           e.high = stale_high;
@@ -865,8 +796,7 @@ checkpoint(Ctx& ctx, Obj& hist, const State& st, Hazard allowed, bool first, boo
             }
         }
       ctx.violation(got.ok ? "history:output-differs-from-fresh-object" : "history:rejected-after-history-but-accepted-when-fresh",
-                    what + vf::fmt(" [stale-threshold state %d, stale-efficiency state %d] ", static_cast<int>(h_thr), static_cast<int>(h_eff))
-                        + ctxt);
+                    what + vf::fmt(" [energy window changed after a process_data with this template: %d] ", static_cast<int>(h_eff)) + ctxt);
       return false;
     }
 
@@ -883,54 +813,20 @@ checkpoint(Ctx& ctx, Obj& hist, const State& st, Hazard allowed, bool first, boo
           order.insert(order.begin() + pos(before), s);
         }
     };
-    // set_density_image_sptr documents (in its body) that it discards the scatter-point image: it has to come first
+    // set_density_image_sptr documents (in its body) that it discards the scatter-point image: it has to come first;
+    // threshold and random-placement flag are used when the scatter-point image is given (see the top of this file)
     move_before(S_ATT, S_SP);
-    // the hazard orders are taken in about a third of the comparisons only, so that a hazard case also gets into its history
-    if (allowed != HAZ_THR || ctx.rng.coin(0.65))
-      move_before(S_THR, S_SP);
-    if (allowed != HAZ_RND || ctx.rng.coin(0.65))
-      move_before(S_RND, S_SP);
+    move_before(S_THR, S_SP);
+    move_before(S_RND, S_SP);
     Obj fr;
     for (Setter s : order)
       fr.apply(ctx, st, s, static_cast<int>(ctx.rng.range(0, 1)));
-    if (fr.rnd_stale())
-      {
-        ctx.count("hazard_states:random-flag-newer-than-scatter-points");
-        std::string where;
-        if (!points_on_voxel_centres(fr.sim, st.sp, where))
-          {
-            ctx.violation(KEY_RND, "set_randomly_place_scatter_points(false) called after set_density_image_for_scatter_points_sptr: "
-                                       + where + "; setter order: " + fr.log_str());
-            return false;
-          }
-      }
-    const bool f_thr = fr.thr_stale();
-    if (f_thr)
-      ctx.count("hazard_states:threshold-newer-than-scatter-points");
-    const float f_stale_thr = fr.thr_at_sampling;
     Out got2 = run(ctx, fr, st);
     ctx.count("fresh_object_comparisons");
     ctx.count("fresh_random_order_comparisons");
     if (!got2.ok || first_difference(got2.v, ref.v) >= 0)
       {
         const std::string what = !got2.ok ? ("random order: " + got2.err + ", canonical order accepted") : diff_str(got2.v, ref.v);
-        if (got2.ok && f_thr)
-          {
-            State e = st;
-            e.thr = f_stale_thr;
-            Out em = fresh_canonical(ctx, e);
-            if (em.ok && first_difference(em.v, got2.v) < 0)
-              {
-                ctx.violation(KEY_THR,
-                              vf::fmt("two fresh objects, identical final values, different setter order: the one that called "
-                                      "set_attenuation_threshold(%.4g) after the scatter-point image uses %d scatter points (threshold %.4g "
-                                      "in force at that time), the canonical one %ld; its output is bit-identical to a fresh object with "
-                                      "threshold %.4g; ",
-                                      st.thr, fr.sim.get_num_scatter_points(), f_stale_thr, count_at_least(st.sp, st.thr), f_stale_thr)
-                                  + what + "; order: " + fr.log_str() + "; final values: " + st.str());
-                return false;
-              }
-          }
         ctx.violation(got2.ok ? "fresh:random-setter-order-differs-from-canonical-order" : "fresh:random-setter-order-rejected",
                       what + "; order: " + fr.log_str() + "; canonical: " + canon_log + "; final values: " + st.str());
         return false;
@@ -940,23 +836,20 @@ checkpoint(Ctx& ctx, Obj& hist, const State& st, Hazard allowed, bool first, boo
 }
 
 static void
-case_history(Ctx& ctx, Hazard allowed)
+case_history(Ctx& ctx)
 {
   const World w = gen_world(ctx);
   State st = gen_state(ctx.rng, w);
   const int nsteps = static_cast<int>(ctx.rng.range(4, ctx.thorough() ? 24 : 20));
   const double p_check = ctx.rng.uniform(0.25, 0.6);
-  static const char* const hz[] = { "none", "attenuation-threshold-after-scatter-point-image", "exam-info-after-process_data",
-                                    "random-flag-after-scatter-point-image(fresh order only)" };
-  ctx.desc.add("kind", "history").add("hazard_allowed", hz[allowed]).add("steps", nsteps).add("rbase", w.rbase).add("zmid", w.zmid);
+  ctx.desc.add("kind", "history").add("steps", nsteps).add("rbase", w.rbase).add("zmid", w.zmid);
   ctx.desc.add("initial", st.str());
   ctx.heartbeat("history:start");
   ctx.count("histories");
-  ctx.count(std::string("histories_hazard_") + (allowed == HAZ_NONE ? "none" : allowed == HAZ_THR ? "threshold" : allowed == HAZ_EXAM ? "exam" : "random-flag"));
 
   Obj hist;
   {
-    // initial configuration of the history object: random order as well (with the documented / repaired constraints)
+    // initial configuration of the history object: random order as well (with the constraints described at the top of this file)
     std::vector<Setter> order(k_canonical + 1, k_canonical + 8);
     ctx.rng.shuffle(order);
     hist.apply(ctx, st, S_RND); // the flag stays off for the whole history
@@ -966,7 +859,7 @@ case_history(Ctx& ctx, Hazard allowed)
     hist.apply(ctx, st, S_SP);
   }
   bool nonzero = false;
-  if (!checkpoint(ctx, hist, st, allowed, true, nonzero))
+  if (!checkpoint(ctx, hist, st, true, nonzero))
     return;
   bool pending = false;
   for (int step = 0; step < nsteps; ++step)
@@ -979,6 +872,7 @@ case_history(Ctx& ctx, Hazard allowed)
         case 1: // new activity image (sometimes on another grid)
           st.act = gen_activity(ctx.rng, ctx.rng.coin(0.6) ? st.act.g : gen_geo(ctx.rng, w));
           hist.apply(ctx, st, S_ACT);
+          ctx.count("steps_new_activity_image");
           break;
         case 2: // new attenuation image; the scatter-point image has to be given again (documented in set_density_image_sptr)
           st.att = gen_attenuation(ctx.rng, ctx.rng.coin(0.5) ? st.att.g : gen_geo(ctx.rng, w), "att");
@@ -986,28 +880,37 @@ case_history(Ctx& ctx, Hazard allowed)
           if (ctx.rng.coin(0.5))
             st.sp = gen_sp_image(ctx.rng, w, st.att);
           hist.apply(ctx, st, S_SP);
+          ctx.count("steps_new_attenuation_image");
           break;
         case 3: // new scatter-point image
           st.sp = gen_sp_image(ctx.rng, w, st.att);
           hist.apply(ctx, st, S_SP);
+          ctx.count("steps_new_scatter_point_image");
           break;
-        case 4:
-        case 5: // attenuation threshold
+        case 4: // new attenuation threshold, then the scatter-point image (the same or a new one) is given again
           st.thr = gen_threshold(ctx.rng);
           hist.apply(ctx, st, S_THR);
+          if (ctx.rng.coin(0.3))
+            st.sp = gen_sp_image(ctx.rng, w, st.att);
+          hist.apply(ctx, st, S_SP);
+          ctx.count("steps_new_threshold_and_scatter_point_image_again");
           break;
+        case 5:
         case 6: // template (the output projection data are replaced in run())
           st.tmpl = gen_tmpl(ctx.rng, w);
           hist.apply(ctx, st, S_TMPL);
+          ctx.count("steps_new_template");
           break;
         case 7:
         case 8: // energy window
           gen_window(ctx.rng, st.low, st.high);
           hist.apply(ctx, st, S_EXAM, static_cast<int>(ctx.rng.range(0, 1)));
+          ctx.count("steps_new_energy_window");
           break;
         case 9: // cache switch
           st.cache = !st.cache;
           hist.apply(ctx, st, S_CACHE, static_cast<int>(ctx.rng.range(0, 1)));
+          ctx.count("steps_cache_switch");
           break;
         case 10: // a setter called again with the value it already has
           {
@@ -1024,12 +927,12 @@ case_history(Ctx& ctx, Hazard allowed)
       pending = true;
       if (ctx.rng.coin(p_check) || what == 11)
         {
-          if (!checkpoint(ctx, hist, st, allowed, false, nonzero, changed))
+          if (!checkpoint(ctx, hist, st, false, nonzero, changed))
             return;
           pending = false;
         }
     }
-  if (pending && !checkpoint(ctx, hist, st, allowed, false, nonzero))
+  if (pending && !checkpoint(ctx, hist, st, false, nonzero))
     return;
   ctx.nontrivial = nonzero;
 }
@@ -1039,25 +942,10 @@ run_case(Ctx& ctx)
 {
   g_img_counter = 0;
   g_tmpl_counter = 0;
-  switch (ctx.idx % 6)
-    {
-    case 0:
-    case 3:
-      case_pairs(ctx);
-      break;
-    case 1:
-      case_history(ctx, HAZ_NONE);
-      break;
-    case 2:
-      case_history(ctx, HAZ_THR);
-      break;
-    case 4:
-      case_history(ctx, HAZ_EXAM);
-      break;
-    default:
-      case_history(ctx, HAZ_RND);
-      break;
-    }
+  if (ctx.idx % 3 == 0)
+    case_pairs(ctx);
+  else
+    case_history(ctx);
 }
 
 int
